@@ -48,8 +48,9 @@ def dn_arm(an, prog, b, L, signed):
     return (prims[0][2] if prims else None, st["variant"], st["narrowing"], prims[0][3] if prims else None)
 
 
-def _dn_scan(an, prog, b, assume, st, depth):
+def _dn_scan(an, prog, b, assume, st, depth, tmap=None):
     r = reach_assuming(an, b, assume)
+    tmap = tmap or {}
 
     def from_aggs(cb, blocks=None):
         for (bb, i, s) in block_aggs(cb, blocks):
@@ -71,10 +72,19 @@ def _dn_scan(an, prog, b, assume, st, depth):
         if blk not in r or c is None:
             continue
         p = prim_of(c)
+        if not p and tmap and c.syn_args and c.syn_args[0] in tmap and c.nsyn.startswith("nom_derive::Parse::"):
+            # `T::parse(i)` inside a helper generic over the primitive type, T := the call site's type argument
+            from .layout import PRIM_W
+            tn = tmap[c.syn_args[0]]
+            if tn in PRIM_W:
+                p = ("prim", "<%s as Parse>::%s" % (tn, c.nsyn.rsplit("::", 1)[1]), PRIM_W[tn], "le" if c.nsyn.endswith("parse_le") else "be", "complete")
         if p:
             st["prims"].append(p)
             continue
-        if c.nsyn in ("std::result::Result::map",) or c.npath in ("nom::combinator::map",):
+        fn_values = c.nsyn in ("std::result::Result::map",) or c.npath in ("nom::combinator::map",)
+        generic_helper = c.local and c.kind == "Item" and depth < 2 and "nom_derive::Parse" not in c.path
+        if fn_values or generic_helper:
+            # function values handed over: the closure / constructor that wraps the parsed number
             for a in t["args"]:
                 e = peel(an.op(b, a), identity=(), casts=False)
                 if e[0] == "closure":
@@ -89,7 +99,7 @@ def _dn_scan(an, prog, b, assume, st, depth):
                     if m:
                         st["variant"] = m.group(1)
                         st["narrowing"] = False
-        elif c.local and c.kind == "Item" and depth < 2 and "nom_derive::Parse" not in c.path:
+        if generic_helper:
             hb = prog.bodies.get(c.path)
             if hb is None or hb.derived:
                 continue
@@ -103,7 +113,9 @@ def _dn_scan(an, prog, b, assume, st, depth):
                         cv = next(iter(ce))
                 if cv is not None:
                     sub[canon(("arg", k + 1))] = cv
-            _dn_scan(an, prog, hb, sub, st, depth + 1)
+            gens = hb.j.get("generics") or []
+            tm = dict(zip(gens, c.args)) if gens and c.args and len(gens) == len(c.args) else {}
+            _dn_scan(an, prog, hb, sub, st, depth + 1, tm)
 
 
 def sum_of_field(an, e, container, elem):
